@@ -59,8 +59,13 @@ type fieldPlan struct {
 	fieldName   string
 	fieldDef    *FieldDefinition
 	fieldASTs   []*ast.Field // [0] is the canonical AST for arg lookup; full slice flows into ResolveInfo
-	args        argPlan
-	returnType  Output
+	// enclosing[i] names the fragments through which fieldASTs[i] was
+	// reached (on the path from the operation). A spread of one of them
+	// below that occurrence would close a fragment cycle; validation
+	// forbids such documents, but a caller may plan without validating.
+	enclosing  []map[string]bool
+	args       argPlan
+	returnType Output
 
 	// skipPredicate evaluates the field's combined @skip / @include
 	// directives against request variables. nil ⇒ always include
@@ -184,7 +189,7 @@ func (p *Plan) planSelectionSet(parentType *Object, selectionSet *ast.SelectionS
 	}
 	sp := &selectionPlan{parentType: parentType}
 	keyed := map[string]int{}
-	p.collectInto(parentType, selectionSet, visitedFragmentNames, sp, keyed, nil)
+	p.collectInto(parentType, selectionSet, visitedFragmentNames, sp, keyed, nil, nil)
 	if len(sp.fields) == 0 {
 		return nil
 	}
@@ -207,7 +212,7 @@ func (p *Plan) planMergedFieldChildren(fp *fieldPlan) {
 	// Object returns resolve to a single concrete type, so plan their
 	// sub-selection eagerly.
 	if obj, ok := unwrapNamedType(fp.returnType).(*Object); ok {
-		fp.sub = p.planMergedSelectionsForType(obj, fp.fieldASTs)
+		fp.sub = p.planMergedSelectionsForType(obj, fp.fieldASTs, fp.enclosing)
 		return
 	}
 	// Abstract returns (Interface / Union) are planned lazily, per
@@ -236,7 +241,7 @@ func (p *Plan) abstractAlternative(fp *fieldPlan, runtimeType *Object) *selectio
 	if sub, ok := fp.abstractAlternatives[runtimeType]; ok {
 		return sub
 	}
-	sub := p.planMergedSelectionsForType(runtimeType, fp.fieldASTs)
+	sub := p.planMergedSelectionsForType(runtimeType, fp.fieldASTs, fp.enclosing)
 	fp.abstractAlternatives[runtimeType] = sub
 	verifEvent("plan.abstract.built", p, fp, runtimeType)
 	return sub
@@ -246,16 +251,20 @@ func (p *Plan) abstractAlternative(fp *fieldPlan, runtimeType *Object) *selectio
 // SelectionSet under one concrete parent type, returning a
 // selectionPlan that mirrors what completeObjectValue's runtime
 // collectFields loop would produce.
-func (p *Plan) planMergedSelectionsForType(parentType *Object, fieldASTs []*ast.Field) *selectionPlan {
+func (p *Plan) planMergedSelectionsForType(parentType *Object, fieldASTs []*ast.Field, enclosing []map[string]bool) *selectionPlan {
 	verifCount(1)
 	sp := &selectionPlan{parentType: parentType}
 	keyed := map[string]int{}
 	visited := map[string]bool{}
-	for _, f := range fieldASTs {
+	for i, f := range fieldASTs {
 		if f == nil || f.SelectionSet == nil {
 			continue
 		}
-		p.collectInto(parentType, f.SelectionSet, visited, sp, keyed, nil)
+		var active map[string]bool
+		if i < len(enclosing) {
+			active = enclosing[i]
+		}
+		p.collectInto(parentType, f.SelectionSet, visited, sp, keyed, nil, active)
 	}
 	if len(sp.fields) == 0 {
 		return nil
@@ -282,7 +291,7 @@ func (p *Plan) planMergedSelectionsForType(parentType *Object, fieldASTs []*ast.
 // keyed maps responseKey → index in sp.fields so repeat selections
 // of the same response key merge their fieldASTs (matches
 // collectFields's `fields[name] = append(fields[name], selection)`).
-func (p *Plan) collectInto(parentType *Object, selectionSet *ast.SelectionSet, visitedFragmentNames map[string]bool, sp *selectionPlan, keyed map[string]int, parentPred func(map[string]interface{}) bool) {
+func (p *Plan) collectInto(parentType *Object, selectionSet *ast.SelectionSet, visitedFragmentNames map[string]bool, sp *selectionPlan, keyed map[string]int, parentPred func(map[string]interface{}) bool, active map[string]bool) {
 	for _, iSelection := range selectionSet.Selections {
 		verifCount(0)
 		switch sel := iSelection.(type) {
@@ -302,6 +311,7 @@ func (p *Plan) collectInto(parentType *Object, selectionSet *ast.SelectionSet, v
 				// validation rules guarantee mergeable selections refer
 				// to the same field).
 				sp.fields[idx].fieldASTs = append(sp.fields[idx].fieldASTs, sel)
+				sp.fields[idx].enclosing = append(sp.fields[idx].enclosing, active)
 				continue
 			}
 			fieldName := ""
@@ -319,6 +329,7 @@ func (p *Plan) collectInto(parentType *Object, selectionSet *ast.SelectionSet, v
 				fieldName:     fieldName,
 				fieldDef:      fieldDef,
 				fieldASTs:     []*ast.Field{sel},
+				enclosing:     []map[string]bool{active},
 				skipPredicate: andPredicates(parentPred, pred),
 			}
 			if fieldDef != nil {
@@ -337,7 +348,7 @@ func (p *Plan) collectInto(parentType *Object, selectionSet *ast.SelectionSet, v
 				continue
 			}
 			if sel.SelectionSet != nil {
-				p.collectInto(parentType, sel.SelectionSet, visitedFragmentNames, sp, keyed, andPredicates(parentPred, pred))
+				p.collectInto(parentType, sel.SelectionSet, visitedFragmentNames, sp, keyed, andPredicates(parentPred, pred), active)
 			}
 
 		case *ast.FragmentSpread:
@@ -349,7 +360,10 @@ func (p *Plan) collectInto(parentType *Object, selectionSet *ast.SelectionSet, v
 			if sel.Name != nil {
 				fragName = sel.Name.Value
 			}
-			if visitedFragmentNames[fragName] {
+			if visitedFragmentNames[fragName] || active[fragName] {
+				// already collected into this selection set, or this very
+				// fragment is being expanded further up (a cycle through a
+				// field, only possible in an unvalidated document)
 				continue
 			}
 			frag, ok := p.fragments[fragName]
@@ -365,7 +379,12 @@ func (p *Plan) collectInto(parentType *Object, selectionSet *ast.SelectionSet, v
 				continue
 			}
 			if fragDef.GetSelectionSet() != nil {
-				p.collectInto(parentType, fragDef.GetSelectionSet(), visitedFragmentNames, sp, keyed, andPredicates(parentPred, pred))
+				inFrag := make(map[string]bool, len(active)+1)
+				for name := range active {
+					inFrag[name] = true
+				}
+				inFrag[fragName] = true
+				p.collectInto(parentType, fragDef.GetSelectionSet(), visitedFragmentNames, sp, keyed, andPredicates(parentPred, pred), inFrag)
 			}
 		}
 	}
